@@ -251,6 +251,12 @@ func (r *Run) Report(v *Viol) {
 	r.mu.Lock()
 	defer r.mu.Unlock()
 	r.violFP[v.Fingerprint]++
+	if r.known[v.Fingerprint] {
+		if r.violFP[v.Fingerprint] == 1 {
+			r.viols = append(r.viols, v)
+		}
+		return // a known finding never saturates the run
+	}
 	r.totalViols++
 	if r.violFP[v.Fingerprint] <= 3 && len(r.viols) < 200 {
 		r.viols = append(r.viols, v)
